@@ -111,3 +111,13 @@ def merge_first_wins_selfref(a: dict, b: dict, top: bool = True) -> dict:
         elif k not in out or (top and refers_to_own_key(k, out[k])):
             out[k] = v
     return out
+
+
+def validate_scope(text):
+    """documented reading of the --scope option: a bracketed list of keys (comma separated, each key typed, quotes removed),
+    or a single word taken as one key; None means no scope"""
+    if text is None:
+        return None
+    if re.match(r"\s*\[", text):
+        return [classify(k.strip()) for k in text.strip(" []").split(",")]
+    return [text]
